@@ -36,7 +36,7 @@ def correspond(ctx):
 
 def search(ctx, broken, res0):
     res = Result()
-    for c in sk.gen_cases(ctx, se.NAMES, ctx.pick(12, 30), scale=2):
+    for c in sk.targeted_cases(ctx, res0) + sk.gen_cases(ctx, se.NAMES, ctx.pick(12, 30), scale=2):
         res.evaluations += 1
         so.c03(res, c)
     return res
